@@ -1413,6 +1413,11 @@ fn preprocess_initial_file(
             Err(_) => return Err(PreprocessError::InvalidDefine(SourceLocation::UNKNOWN)),
         };
 
+        // A define is a single line so the value can not contain a line break
+        if tokens.iter().any(|t| t.0 == Token::Endline) {
+            return Err(PreprocessError::InvalidDefine(SourceLocation::UNKNOWN));
+        }
+
         let macro_def = Macro::parse(&tokens)?;
 
         // Remove any existing macros with the same name
